@@ -13,6 +13,7 @@ import (
 type fsFile struct {
 	data  Str
 	isDir bool
+	ino   uint64
 }
 
 type openFile struct {
@@ -29,7 +30,9 @@ func (it *Interp) fsLookup(name string) *fsFile {
 	// implicit directories
 	for p := range it.fsFiles {
 		if strings.HasPrefix(p, name+"/") || name == "/" {
-			return &fsFile{isDir: true}
+			d := &fsFile{isDir: true, ino: uint64(1000 + len(it.fsFiles))}
+			it.fsFiles[name] = d
+			return d
 		}
 	}
 	return nil
@@ -42,7 +45,16 @@ func (it *Interp) pathArg(v Value) string {
 	}
 	c, ok := s.concrete()
 	if !ok {
-		panic(engineErr("symbolic file path reaches the operating system"))
+		// a symbolic path reaches the operating system: fork over the feasible spellings byte by byte
+		b := make([]byte, len(s.b))
+		for i, t := range s.b {
+			if t.Op == OpConst {
+				b[i] = byte(t.Val)
+			} else {
+				b[i] = byte(it.concretize(it.tt.ZExt(t, 64), 64))
+			}
+		}
+		c = string(b)
 	}
 	if !strings.HasPrefix(c, "/") {
 		c = "/srv/" + c
@@ -80,6 +92,20 @@ func (it *Interp) fileInfo(name string, f *fsFile) Value {
 				m = 1<<31 | 0o755
 			}
 			st[i] = it.tt.Const(32, m)
+		case "sys":
+			// identity for os.SameFile: device 1, a distinct inode per file
+			if sys, ok := st[i].(Struct); ok {
+				if su, ok := u.Field(i).Type().Underlying().(*types.Struct); ok {
+					for j := 0; j < su.NumFields(); j++ {
+						switch su.Field(j).Name() {
+						case "Dev":
+							sys[j] = it.tt.Const(64, 1)
+						case "Ino":
+							sys[j] = it.tt.Const(64, f.ino)
+						}
+					}
+				}
+			}
 		}
 	}
 	var cell Value = st
@@ -113,7 +139,7 @@ func init() {
 			it.fsFiles = map[string]*fsFile{}
 		}
 		data := Str{bytesOf(args[1])}
-		it.fsFiles[it.pathArg(args[0])] = &fsFile{data: data}
+		it.fsFiles[it.pathArg(args[0])] = &fsFile{data: data, ino: uint64(10 + len(it.fsFiles))}
 		return nil
 	})
 	reg(rtPkg+"FSRoot", func(fr *frame, args []Value) Value { return fr.it.mkStr("/srv") })
@@ -169,6 +195,63 @@ func init() {
 		return Tuple{it.mkInt(n), Iface{}}
 	})
 	reg("(*os.File).Close", func(fr *frame, args []Value) Value { return Iface{} })
+	reg("(*os.File).Seek", func(fr *frame, args []Value) Value {
+		it := fr.it
+		of := it.openFileOf(args[0])
+		if of == nil {
+			panic(engineErr("Seek on unknown *os.File"))
+		}
+		off, whence := argInt(args[1]), argInt(args[2])
+		switch whence {
+		case 0:
+			of.pos = off
+		case 1:
+			of.pos += off
+		case 2:
+			of.pos = len(of.f.data.b) + off
+		}
+		if of.pos < 0 {
+			of.pos = 0
+		}
+		return Tuple{it.tt.Const(64, uint64(of.pos)), Iface{}}
+	})
+	readdir := func(fr *frame, args []Value) Value {
+		it := fr.it
+		of := it.openFileOf(args[0])
+		if of == nil {
+			panic(engineErr("Readdir on unknown *os.File"))
+		}
+		var names []string
+		for p := range it.fsFiles {
+			if path.Dir(p) == of.name && p != of.name {
+				names = append(names, p)
+			}
+		}
+		// implicit sub-directories
+		seen := map[string]bool{}
+		for _, n := range names {
+			seen[n] = true
+		}
+		for p := range it.fsFiles {
+			if strings.HasPrefix(p, of.name+"/") {
+				rest := strings.TrimPrefix(p, of.name+"/")
+				if i := strings.Index(rest, "/"); i > 0 {
+					d := of.name + "/" + rest[:i]
+					if !seen[d] {
+						seen[d] = true
+						names = append(names, d)
+					}
+				}
+			}
+		}
+		sort.Strings(names)
+		out := []Value{}
+		for _, n := range names {
+			out = append(out, it.fileInfo(n, it.fsLookup(n)))
+		}
+		return Tuple{out, Iface{}}
+	}
+	reg("(*os.File).Readdir", readdir)
 	reg("(*os.File).Name", func(fr *frame, args []Value) Value {
 		if of := fr.it.openFileOf(args[0]); of != nil {
 			return fr.it.mkStr(of.name)
